@@ -354,7 +354,8 @@ func (c *HostClient) DoDeadline(ctx context.Context, req *protocol.Request, resp
 // It is recommended obtaining req and resp via AcquireRequest
 // and AcquireResponse in performance-critical code.
 func (c *HostClient) DoRedirects(ctx context.Context, req *protocol.Request, resp *protocol.Response, maxRedirectsCount int) error {
-	_, _, err := client.DoRequestFollowRedirects(ctx, req, resp, req.URI().String(), maxRedirectsCount, c)
+	// (the given request goes out as it is; its URL is only the base for a Location)
+	_, _, err := client.DoRequestFollowRedirects(ctx, req, resp, "", maxRedirectsCount, c)
 	return err
 }
 
